@@ -1524,7 +1524,7 @@ def check_C20(tier, seed):
     sph = os.path.join(OUT, "C20_spheres.ndjson")
     cfg = os.path.join(OUT, "tlc", "vaux.cfg")
     write_cfg(cfg, constants=dict(GX=2, GY=2, GZ=1, KMin=2, KMax=4 if tier == "quick" else 5, Emit=True),
-              invariants=["Exists", "Unique", "Contains", "EmitSphere"])
+              invariants=["Exists", "Unique", "Contains", "WelzlNeverDegenerate", "WelzlMinimal", "WelzlSingle", "EmitSphere"])
     with open(sph, "w") as f:
         r = run_tlc("mc/MCVAux.tla", cfg, tag_sink={"SPHERE": f}, tags=("SPHERE",), timeout=3000)
     if r.violation:
